@@ -490,6 +490,13 @@ module N =
     | Lt -> true
     | _ -> false
 
+  (** val min : n -> n -> n **)
+
+  let min n0 n' =
+    match compare n0 n' with
+    | Gt -> n'
+    | _ -> n0
+
   (** val max : n -> n -> n **)
 
   let max n0 n' =
@@ -762,6 +769,11 @@ module Z =
   | Z0 -> Z0
   | Zpos x0 -> Zneg x0
   | Zneg x0 -> Zpos x0
+
+  (** val sub : z -> z -> z **)
+
+  let sub m n0 =
+    add m (opp n0)
 
   (** val mul : z -> z -> z **)
 
@@ -7564,6 +7576,11 @@ let collect_moves b mask0 =
                        (piece_legals Queen true true b mask1))))
           else []) (king_legals true b b.b_turn mask1)
 
+(** val collect_king_moves : board -> color -> entry list **)
+
+let collect_king_moves b turn =
+  king_legals (any b.b_checkers) b turn (bb_not (colors b turn))
+
 type movegen = { g_moves : entry list; g_promo : n; g_mask : n; g_index : nat }
 
 (** val mg_new : entry list -> n -> movegen **)
@@ -7580,6 +7597,11 @@ let legals_gen b =
 
 let legals_masked_gen b mask0 =
   mg_new (collect_moves b mask0) mask0
+
+(** val king_legals_gen : board -> color -> movegen **)
+
+let king_legals_gen b turn =
+  mg_new (collect_king_moves b turn) bb_full
 
 (** val live : movegen -> entry -> bool **)
 
@@ -8328,6 +8350,367 @@ let write_fen b =
             (app ((Npos (XO (XO (XO (XO (XO XH)))))) :: [])
               (show_dec b.b_full))))))
 
+type threefold = (board * n) list
+
+(** val tf_key_eqb : board -> board -> bool **)
+
+let tf_key_eqb a b =
+  (&&) (N.eqb (zobrist a) (zobrist b)) (board_eqb a b)
+
+(** val tf_get : threefold -> board -> n **)
+
+let rec tf_get tf b =
+  match tf with
+  | [] -> N0
+  | p :: r -> let (b', c) = p in if tf_key_eqb b' b then c else tf_get r b
+
+(** val sat8 : n -> n **)
+
+let sat8 x =
+  if N.ltb (Npos (XI (XI (XI (XI (XI (XI (XI XH)))))))) x
+  then Npos (XI (XI (XI (XI (XI (XI (XI XH)))))))
+  else x
+
+type blist = (board * n) list
+
+(** val bl_count : blist -> threefold -> board -> n **)
+
+let rec bl_count l tf b =
+  match l with
+  | [] -> tf_get tf b
+  | p :: r -> let (b', c) = p in if board_eqb b' b then c else bl_count r tf b
+
+(** val bl_new : threefold -> board -> blist **)
+
+let bl_new tf b =
+  (b, (tf_get tf b)) :: []
+
+(** val bl_add : blist -> threefold -> board -> blist **)
+
+let bl_add l tf b =
+  (b, (sat8 (N.add (bl_count l tf b) (Npos XH)))) :: l
+
+(** val bl_head_count : blist -> n **)
+
+let bl_head_count = function
+| [] -> N0
+| p :: _ -> let (_, c) = p in c
+
+(** val zcount : n -> z **)
+
+let zcount x =
+  Z.of_N (count x)
+
+(** val score_pieces : board -> color -> z **)
+
+let score_pieces b c =
+  let my = colors b c in
+  Z.add
+    (Z.add
+      (Z.add
+        (Z.add
+          (Z.mul (zcount (bb_and my b.b_queen)) (Zpos (XO (XO (XI (XO (XO (XO
+            (XO (XI (XI XH)))))))))))
+          (Z.mul (zcount (bb_and my b.b_rook)) (Zpos (XO (XO (XI (XO (XI (XI
+            (XI (XI XH)))))))))))
+        (Z.mul (zcount (bb_and my b.b_bishop)) (Zpos (XO (XI (XO (XI (XO (XO
+          (XI (XO XH)))))))))))
+      (Z.mul (zcount (bb_and my b.b_knight)) (Zpos (XO (XO (XO (XO (XO (XO
+        (XI (XO XH)))))))))))
+    (Z.mul (zcount (bb_and my b.b_pawn)) (Zpos (XO (XO (XI (XO (XO (XI
+      XH))))))))
+
+(** val dist_from_edge : n -> n **)
+
+let dist_from_edge s =
+  let f = file_of s in
+  let r = rank_of s in
+  let to_file_edge = N.min f (N.sub (Npos (XI (XI XH))) f) in
+  let to_rank_edge = N.min r (N.sub (Npos (XI (XI XH))) r) in
+  N.add
+    (N.add (N.mul (N.mul to_file_edge to_rank_edge) (Npos (XO (XI (XO XH)))))
+      (N.mul to_file_edge to_file_edge)) (N.mul to_rank_edge to_rank_edge)
+
+(** val eval_endgame : board -> color -> z **)
+
+let eval_endgame b better =
+  let bk = king_sq b better in
+  let wk = king_sq b (opp0 better) in
+  let king_moves = mg_len (king_legals_gen b (opp0 better)) in
+  let d = dist_geo bk wk in
+  Z.add
+    (Z.add
+      (Z.mul (Z.mul (Z.of_N d) (Z.of_N d)) (Zpos (XO (XO (XI (XO (XO (XI
+        XH))))))))
+      (Z.mul (Z.of_N (dist_from_edge wk)) (Zpos (XO (XI (XO XH))))))
+    (Z.mul (Z.of_N king_moves) (Zpos (XO (XO (XO (XI (XO (XI (XI (XI (XI
+      XH)))))))))))
+
+(** val eval : board -> score **)
+
+let eval b =
+  if N.leb (Npos (XO (XO (XI (XO (XO (XI XH))))))) b.b_half
+  then SRaw Z0
+  else let w = score_pieces b White in
+       let bl = score_pieces b Black in
+       let ps = Z.sub w bl in
+       (match Z.compare ps Z0 with
+        | Eq ->
+          let we = Z0 in
+          let be = Z0 in SRaw (Z.sub (Z.add w we) (Z.add bl be))
+        | Lt ->
+          if Z.ltb bl (Zpos (XO (XO (XO (XI (XO (XO (XO (XO (XI (XI
+               XH)))))))))))
+          then let we = eval_endgame b Black in
+               let be = Z0 in SRaw (Z.sub (Z.add w we) (Z.add bl be))
+          else let we = Z0 in
+               let be = Z0 in SRaw (Z.sub (Z.add w we) (Z.add bl be))
+        | Gt ->
+          if Z.ltb w (Zpos (XO (XO (XO (XI (XO (XO (XO (XO (XI (XI
+               XH)))))))))))
+          then let we = Z0 in
+               let be = eval_endgame b White in
+               SRaw (Z.sub (Z.add w we) (Z.add bl be))
+          else let we = Z0 in
+               let be = Z0 in SRaw (Z.sub (Z.add w we) (Z.add bl be)))
+
+(** val insufficient_material : board -> bool **)
+
+let insufficient_material b =
+  if any (bb_or (bb_or b.b_queen b.b_rook) b.b_pawn)
+  then false
+  else let bishops = count b.b_bishop in
+       let knights = count b.b_knight in
+       (||) ((&&) (N.leb knights (Npos XH)) (N.eqb bishops N0))
+         ((&&) (N.eqb knights N0) (N.leb bishops (Npos XH)))
+
+(** val worst : color -> score **)
+
+let worst = function
+| White -> SMin
+| Black -> SMax
+
+(** val is_better : color -> score -> score -> bool **)
+
+let is_better c sc new0 =
+  match c with
+  | White -> ltb0 sc new0
+  | Black -> gtb sc new0
+
+(** val upd_alpha : color -> score -> score -> score **)
+
+let upd_alpha c alpha sc =
+  match c with
+  | White -> smax sc alpha
+  | Black -> alpha
+
+(** val upd_beta : color -> score -> score -> score **)
+
+let upd_beta c beta sc =
+  match c with
+  | White -> beta
+  | Black -> smin sc beta
+
+(** val mate_score : color -> n -> score **)
+
+let mate_score to_move d =
+  match to_move with
+  | White -> SBlackMateIn d
+  | Black -> SWhiteMateIn d
+
+(** val sat_sub1 : n -> n **)
+
+let sat_sub1 d =
+  if N.eqb d N0 then N0 else N.sub d (Npos XH)
+
+type sst = { s_polls : n; s_evals : n }
+
+(** val bump_eval : sst -> sst **)
+
+let bump_eval st0 =
+  { s_polls = st0.s_polls; s_evals = (N.add st0.s_evals (Npos XH)) }
+
+(** val bump_poll : sst -> sst **)
+
+let bump_poll st0 =
+  { s_polls = (N.add st0.s_polls (Npos XH)); s_evals = st0.s_evals }
+
+type ares =
+| AVal of score * sst
+| ATimeout
+| AFuel
+
+(** val expired : n -> sst -> bool **)
+
+let expired k st0 =
+  N.leb k st0.s_polls
+
+(** val alphabeta :
+    n -> threefold -> nat -> color -> board -> move -> n -> n -> score ->
+    score -> blist -> sst -> ares **)
+
+let rec alphabeta k tf fuel c old mv remaining current alpha beta bl st0 =
+  match fuel with
+  | O -> AFuel
+  | S fuel' ->
+    let b = apply old mv in
+    let was_capture =
+      match raw_get old mv.m_dst with
+      | Some _ -> true
+      | None -> false
+    in
+    let bl' = if was_capture then bl_new tf b else bl_add bl tf b in
+    if (&&) was_capture (insufficient_material b)
+    then AVal ((SRaw Z0), st0)
+    else let g0 = legals_gen b in
+         if mg_is_empty g0
+         then AVal ((if in_check0 b then mate_score c current else SRaw Z0),
+                st0)
+         else if N.leb (Npos (XO (XO (XI (XO (XO (XI XH))))))) b.b_half
+              then AVal ((SRaw Z0), st0)
+              else if N.eqb (bl_head_count bl') (Npos (XI XH))
+                   then AVal ((SRaw Z0), st0)
+                   else let g1 =
+                          if (&&) (N.eqb remaining N0) was_capture
+                          then mg_set_mask g0 (colors b (opp0 c))
+                          else g0
+                        in
+                        let complete =
+                          (&&) (N.eqb remaining N0)
+                            (if was_capture then mg_is_empty g1 else true)
+                        in
+                        if complete
+                        then AVal ((eval b), (bump_eval st0))
+                        else let rec loop moves sc alpha0 beta0 st1 =
+                               match moves with
+                               | [] -> AVal (sc, st1)
+                               | m :: rest ->
+                                 if expired k st1
+                                 then ATimeout
+                                 else (match alphabeta k tf fuel' (opp0 c) b
+                                               m (sat_sub1 remaining)
+                                               (N.add current (Npos XH))
+                                               alpha0 beta0 bl'
+                                               (bump_poll st1) with
+                                       | AVal (new0, st2) ->
+                                         let sc' =
+                                           if is_better c sc new0
+                                           then new0
+                                           else sc
+                                         in
+                                         let alpha' = upd_alpha c alpha0 sc'
+                                         in
+                                         let beta' = upd_beta c beta0 sc' in
+                                         if leb0 beta' alpha'
+                                         then AVal (sc', st2)
+                                         else loop rest sc' alpha' beta' st2
+                                       | x -> x)
+                             in loop (mg_drain g1) (worst c) alpha beta st0
+
+type rres =
+| RVal of score * move option * score * score * sst
+| RTimeout
+| RFuel
+
+(** val root_phase :
+    n -> threefold -> nat -> color -> board -> n -> move list -> score ->
+    move option -> score -> score -> sst -> rres **)
+
+let rec root_phase k tf fuel c root depth moves sc best alpha beta st0 =
+  match moves with
+  | [] -> RVal (sc, best, alpha, beta, st0)
+  | m :: rest ->
+    (match alphabeta k tf fuel (opp0 c) root m depth (Npos XH) alpha beta
+             (bl_new tf root) st0 with
+     | AVal (new0, st1) ->
+       if expired k st1
+       then RTimeout
+       else let st2 = bump_poll st1 in
+            let better = is_better c sc new0 in
+            let sc' = if better then new0 else sc in
+            let best' = if better then Some m else best in
+            root_phase k tf fuel c root depth rest sc' best'
+              (upd_alpha c alpha sc') (upd_beta c beta sc') st2
+     | ATimeout -> RTimeout
+     | AFuel -> RFuel)
+
+type pass_result =
+| PassTimeout
+| PassFuel
+| PassDone of score * move option * sst
+
+(** val pass :
+    n -> threefold -> nat -> board -> n -> move option -> sst -> pass_result **)
+
+let pass k tf fuel root depth prev st0 =
+  let c = root.b_turn in
+  let g0 = legals_gen root in
+  let first =
+    match prev with
+    | Some mv ->
+      ((root_phase k tf fuel c root depth (mv :: []) (worst c) None SMin SMax
+         st0), (fst (mg_remove_move g0 mv)))
+    | None -> ((RVal ((worst c), None, SMin, SMax, st0)), g0)
+  in
+  let (r, g1) = first in
+  (match r with
+   | RVal (sc, best, a, b', st1) ->
+     let g2 = mg_set_mask g1 (colors root (opp0 c)) in
+     let caps = mg_drain g2 in
+     (match root_phase k tf fuel c root depth caps sc best a b' st1 with
+      | RVal (sc2, best2, a2, b2, st2) ->
+        let g3 = fold_left (fun g3 _ -> snd (mg_next g3)) caps g2 in
+        let quiet = mg_drain (mg_set_mask g3 bb_full) in
+        (match root_phase k tf fuel c root depth quiet sc2 best2 a2 b2 st2 with
+         | RVal (sc3, best3, _, _, st3) ->
+           if expired k st3
+           then PassTimeout
+           else PassDone (sc3, best3, (bump_poll st3))
+         | RTimeout -> PassTimeout
+         | RFuel -> PassFuel)
+      | RTimeout -> PassTimeout
+      | RFuel -> PassFuel)
+   | RTimeout -> PassTimeout
+   | RFuel -> PassFuel)
+
+(** val is_mate_score : score -> bool **)
+
+let is_mate_score = function
+| SBlackMateIn _ -> true
+| SWhiteMateIn _ -> true
+| _ -> false
+
+(** val deepen :
+    n -> threefold -> nat -> nat -> board -> n -> move option -> score -> n
+    -> sst -> ((move option * score) * n) * bool **)
+
+let rec deepen k tf passes fuel root depth best bsc maxd st0 =
+  match passes with
+  | O -> (((best, bsc), maxd), true)
+  | S p ->
+    (match pass k tf (add fuel (N.to_nat depth)) root depth best st0 with
+     | PassTimeout -> (((best, bsc), maxd), false)
+     | PassFuel -> (((best, bsc), maxd), true)
+     | PassDone (sc, b', st') ->
+       (match b' with
+        | Some _ ->
+          if is_mate_score sc
+          then (((b', sc), depth), false)
+          else if N.eqb depth (Npos (XI (XI (XI (XI (XI (XI (XI (XI (XI (XI
+                    (XI (XI (XI (XI (XI XH))))))))))))))))
+               then (((b', sc), depth), false)
+               else deepen k tf p fuel root (N.add depth (Npos XH)) b' sc
+                      depth st'
+        | None -> (((None, sc), depth), false)))
+
+(** val search :
+    n -> threefold -> nat -> nat -> board -> ((move
+    option * score) * n) * bool **)
+
+let search k tf passes fuel root =
+  deepen k tf passes fuel root N0 None (worst root.b_turn) N0 { s_polls = N0;
+    s_evals = N0 }
+
 (** val api_score_cmp : score -> score -> comparison **)
 
 let api_score_cmp =
@@ -8976,3 +9359,19 @@ let api_mg_remove_move =
 
 let api_mk_move s d p =
   { m_src = s; m_dst = d; m_promo = p }
+
+(** val api_search :
+    n -> nat -> nat -> board -> ((move option * score) * n) * bool **)
+
+let api_search k passes fuel root =
+  search k [] passes fuel root
+
+(** val api_nat_of_N : n -> nat **)
+
+let api_nat_of_N =
+  N.to_nat
+
+(** val api_score_neg2 : score -> score **)
+
+let api_score_neg2 =
+  neg
